@@ -115,6 +115,24 @@ theorem buffered_body_within_limit (maxBody : Nat) (maxHdr : Int) (evs : List Li
   rw [hmx.1] at this
   exact this hpos
 
+/-- **held header octets are bounded by the list limit, not by the number of frames**: the octets of a header field
+that is not complete yet (carried from frame to frame until the field ends) never exceed `heldFactor` = 4 times
+MaxHeaderListSize for any stream, however many CONTINUATION frames the peer sends (F68 repaired) -/
+theorem held_header_octets_within_limit (maxBody : Nat) (maxHdr : Int) (evs : List Limits.Ev) (hpos : maxHdr > 0) :
+    ∀ s ∈ (Limits.run (Limits.init maxBody maxHdr) evs).tbl, (s.held : Int) ≤ 4 * maxHdr := by
+  intro s hs
+  have hi := Limits.run_inv evs _ (Limits.init_inv maxBody maxHdr)
+  have hmx := Limits.run_max evs (Limits.init maxBody maxHdr)
+  have := hi.held s hs
+  rw [Limits.HeldOK, hmx.2] at this
+  exact this hpos
+
+/-! non-vacuity: limit 100; a tail of 400 octets is carried over, one of 401 is refused and nothing is kept -/
+example : ((Limits.run (Limits.init 10 100) [.opened 1, .hdrTail 1 400]).tbl.map (·.held),
+           (Limits.run (Limits.init 10 100) [.opened 1, .hdrTail 1 400]).trace) = ([400], []) := by decide
+example : ((Limits.run (Limits.init 10 100) [.opened 1, .hdrTail 1 400, .hdrTail 1 401]).tbl.map (·.held),
+           (Limits.run (Limits.init 10 100) [.opened 1, .hdrTail 1 400, .hdrTail 1 401]).trace) = ([0], [.fieldTooLarge 1]) := by decide
+
 /-! non-vacuity: limit 10; 6 + 4 octets are accepted and handed over, one more octet is rejected and that
 request is never dispatched -/
 example : (Limits.run (Limits.init 10 100) [.opened 1, .hdrBytes 1 90, .data 1 6, .data 1 4, .dispatch 1,
@@ -214,6 +232,31 @@ theorem Full.accepted_header_frame_within_limit (s : Srv) (st : Strm) (fr : H2.F
     (h0 : (st.hdrListSize : Int) ≤ s.cfg.maxHeaderList) (hn : (handleHeaderFrame s st fr).2.2 = none) :
     ((handleHeaderFrame s st fr).2.1.hdrListSize : Int) ≤ s.cfg.maxHeaderList :=
   H2.Server.handleHeaderFrame_limit s st fr hpos h0 hn
+
+/-- **held_header_octets_bounded** (full model, run level; F68 repaired): with MaxHeaderListSize set, in every reachable
+state every stream of the table holds at most 4 × MaxHeaderListSize octets of a header field that is not complete yet
+(`prevHdr`, Go `strm.previousHeaderBytes`: carried from frame to frame until the field ends) — a bound in the limit and
+not in the number of HEADERS/CONTINUATION frames the peer has sent. With `open_slots_within_limit`: at most
+MaxConcurrentStreams × 4 × MaxHeaderListSize such octets per connection. The field loop checks before it stores, so no
+frame's worth of slack is needed; the bound is attained (`Ex.cutRun` below). 4 × the limit loses no request: HPACK wire
+octets decode to at least 8/30 of their number, so a longer field could never fit the list limit. -/
+theorem Full.held_header_octets_bounded (cfg : Cfg) (evs : List Event) (hpos : cfg.maxHeaderList > 0) :
+    ∀ st ∈ (run cfg evs).1.strms, (st.prevHdr.length : Int) ≤ 4 * cfg.maxHeaderList :=
+  H2.Server.held_header_octets_bounded cfg evs hpos
+
+/-- (full model, step level) whatever `handleHeaderFrame` is given and however it ends, the stream it returns holds an
+unfinished field within the bound, provided the one it was given did. -/
+theorem Full.header_frame_keeps_held_bound (s : Srv) (st : Strm) (fr : H2.Frame.Frame) (hpos : s.cfg.maxHeaderList > 0)
+    (h0 : (st.prevHdr.length : Int) ≤ 4 * s.cfg.maxHeaderList) :
+    ((handleHeaderFrame s st fr).2.1.prevHdr.length : Int) ≤ 4 * s.cfg.maxHeaderList :=
+  H2.Server.handleHeaderFrame_held s st fr (fun _ => h0) hpos
+
+/-! non-vacuity (`Ex.cutRun`, MaxHeaderListSize = 10: a literal field whose value announces 127 octets; 35 + 5 = 40
+octets of it are held and nothing is written; one more octet draws GOAWAY(ENHANCE_YOUR_CALM) and nothing is held) -/
+example : (run { maxHeaderList := 10 } Ex.cutRun).1.strms.map (fun st => (st.id, st.prevHdr.length)) = [(1, 40)] ∧
+    fm Ex.tag (runOuts { maxHeaderList := 10 } Ex.cutRun) = [] := by decide +kernel
+example : (run { maxHeaderList := 10 } (Ex.cutRun ++ [Ex.moreCont 1 1])).1.strms.map (fun st => (st.id, st.prevHdr.length)) = [(1, 0)] ∧
+    fm Ex.tag (runOuts { maxHeaderList := 10 } (Ex.cutRun ++ [Ex.moreCont 1 1])) = [("goaway", 1)] := by decide +kernel
 
 /-! non-vacuity on the full model (`Ex.slotRun`, MaxConcurrentStreams = 1: HEADERS(1) dispatched, HEADERS(3) refused,
 the peer resets 1 while its handler runs — abandoned, slot kept — HEADERS(5) still refused; after the handler of 1
